@@ -195,6 +195,16 @@ def check_identity(bodies, style, opts=None, want_output=True):
 
 # --------------------------------------------------------------------------------------------- classification
 
+def lost_pending_caller(raw_site, detail):
+    """the implementation fails (or leaves nextcaller / the caller stack changed) where the reference renders: the
+    callee of a call with content did not get its caller"""
+    d = detail or {}
+    impl, exp = d.get("impl") or {}, d.get("expected") or {}
+    if raw_site in ("nextcaller-left-set", "caller-changed-after-call", "stacks-not-restored-after-render"):
+        return True
+    return str(impl.get("res", "")).startswith("exc") and exp.get("res") == "val"
+
+
 def classify(bodies, fails, allow):
     """necessary-feature test on a (minimal) failing set: (site of the recorded quirk, feature) or (None, None)"""
     present = CG.features(bodies)
@@ -258,13 +268,15 @@ class Reporter:
 
         def fails(bs):
             # shrinking must not walk into a recorded quirk the original case did not have
-            if set(CG.features(bs)) - set(allow) or not CG.wellformed(bs):
+            if set(CG.features(bs)) - set(allow) - set(CG.REPAIRED) or not CG.wellformed(bs):
                 return False
             return site_of(bs) == raw_site
 
         def fails_plain(bs):
             return site_of(bs) == raw_site
         site, feature = classify(bodies, fails_plain, allow)
+        if feature == "call-in-call-expr-args" and lost_pending_caller(raw_site, detail):
+            site = "call-expr-args-lose-pending-caller"
         key = (site or raw_site, feature)
         if key in self.seen:
             ctx.branch("violation-duplicate:%s" % (site or raw_site))
@@ -289,6 +301,11 @@ class Reporter:
                 detail = d3
         except Exception:      # noqa
             pass
+        if feature == "call-in-call-expr-args" and lost_pending_caller(raw_site, detail):
+            # the defect repaired by /repo 555117c: the callee of the <%call> is entered WITHOUT its caller (a nested
+            # <%call> run during argument evaluation cleared nextcaller).  What remains recorded (F-C05-1b) is the
+            # opposite direction: a def called while the caller is pending takes it for its own.
+            site = "call-expr-args-lose-pending-caller"
         srcs = [SF.to_source(b, "", (style[0], style[1] + i))[0][len(rt.PRELUDE):] for i, b in enumerate(small)]
         case = {"input": "\n-----\n".join(srcs), "bodies": small, "k": -1, "style": list(style), "check": check,
                 "opts": opts, "feature": feature, "raw_site": raw_site,
